@@ -494,6 +494,8 @@ def execute(sc, stats=None, upto=None, trace=None):
     msg_types = {t: schema for t in gen.TOPICS}
     msg_types.update({'A': schema})
     pool = []
+    resolved = []
+    _RESOLVED[0] = resolved
     try:
         for src in sc['sources']:
             obj = parse_source(src)
@@ -518,6 +520,7 @@ def execute(sc, stats=None, upto=None, trace=None):
             name = names[op['opsel'] % len(names)]
         count('ops')
         count('op_' + name)
+        resolved.append(name)
         shared = len(nodes_of(h.obj) & set().union(*[nodes_of(x.obj) for x in pool if x is not h])) > 0 if len(pool) > 1 else False
         if shared:
             count('ops_on_shared_nodes')
@@ -623,8 +626,13 @@ def execute(sc, stats=None, upto=None, trace=None):
     return None
 
 
+_RESOLVED = [None]
+
+
 def _viol(cls, detail, op_desc, sc, step):
-    return {'class': cls, 'detail': detail, 'op': op_desc, 'step': step}
+    # the operation names as resolved in this execution: written into the replay file so that
+    # it does not depend on how selectors are mapped to operations
+    return {'class': cls, 'detail': detail, 'op': op_desc, 'step': step, 'resolved_ops': list(_RESOLVED[0] or ())}
 
 
 ###############################################################################
@@ -728,6 +736,10 @@ def minimise(sc, v, budget=160):
 
 
 def make_replay(sc, v):
+    ops = [dict(o) for o in sc['ops']]
+    for o, nm in zip(ops, v.get('resolved_ops') or ()):
+        o['name'] = nm
+    sc = dict(sc, ops=ops)
     return {'property': PROP, 'class': v['class'], 'detail': v['detail'], 'failing_op': v['op'], 'step': v['step'],
             'sources': sc['sources'], 'ops': sc['ops'], 'seed': sc.get('seed'),
             'pythonhashseed': os.environ.get('PYTHONHASHSEED'),
